@@ -459,6 +459,7 @@ def _call(pool, o, rec, label):
             calls.append(("km.predict", lambda: mm["km"].predict(X[:6])))
         for fam, zname in (("isv", "z_isv"), ("jfa", "yz_jfa")):
             if fam in mm:
+                mm[fam].enroll_iterations = o["it"]  # (set by the harness, so set it every time)
                 calls.append((fam + ".estimate_x", lambda fam=fam: mm[fam].estimate_x(sel)))
                 calls.append((fam + ".enroll", lambda fam=fam: mm[fam].enroll(sel)))
                 calls.append((fam + ".enroll_using_array", lambda fam=fam:
